@@ -492,7 +492,9 @@ func (wr *warcRecord) ValidateDigest(validation *Validation) error {
 	if blockDigest != nil {
 		if blockDigest.hash == "" {
 			// Missing digest header is allowed, so skip validation. But if addMissingDigest option is set, a header will be added.
-			if wr.opts.addMissingDigest {
+			if wr.opts.addMissingDigest && (wr.opts.errSpec > ErrIgnore || wr.Block().IsCached()) {
+				// The digest is only complete when the whole block has been read
+				wr.Block().BlockDigest()
 				wr.WarcHeader().Set(WarcBlockDigest, blockDigest.format())
 			}
 		} else if wr.opts.errSpec > ErrIgnore {
@@ -522,7 +524,9 @@ func (wr *warcRecord) ValidateDigest(validation *Validation) error {
 	if payloadDigest != nil {
 		if payloadDigest.hash == "" {
 			// Missing digest header is allowed, so skip validation. But if addMissingDigest option is set, a header will be added.
-			if wr.opts.addMissingDigest {
+			if wr.opts.addMissingDigest && (wr.opts.errSpec > ErrIgnore || wr.Block().IsCached()) {
+				// The digest is only complete when the whole block has been read
+				wr.Block().BlockDigest()
 				wr.WarcHeader().Set(WarcPayloadDigest, payloadDigest.format())
 			}
 		} else if wr.opts.errSpec > ErrIgnore {
